@@ -210,7 +210,7 @@ theorem constructFrames_written (cr : Rec) (cds : List Blk) (st : Strand) (f : C
       | error e => rw [hp] at hrt; exact absurd hrt (by simp)
       | ok n =>
         rw [hp] at hrt
-        simp only [] at hrt ⊢
+        simp only [pure, Except.pure] at hrt ⊢
         rw [hrt]
         simp only [liftR, hc]
     · unfold okFramesOf
